@@ -90,7 +90,7 @@ PROPS = {
         # C06 = the safety obligations (overflow, bounds, slice ranges, unwrap, preconditions of callees such as the
         # allocation budget) of EVERY unit under contract, for all argument values
         'verus': [{'group': g, 'kinds': ['safety', 'requires-at-call', 'decreases', 'invariant']} for g in
-                  ['shard_core', 'shard_strings', 'shard_lists', 'shard_sweeper', 'shard_sets', 'shard_hashes', 'shard_zsets', 'cmd_strings', 'cmd_lists', 'cmd_sets', 'cmd_hashes', 'c03_lists_arith', 'c04_zset_arith', 'c19_scan', 'c20_parser', 'c20_serializer', 'c10_bgsave', 'c11_aof', 'c09_rdb', 'c13_blocking', 'c07_transactions', 'shard_flush', 'c14_pubsub', 'srv_strings', 'srv_zsets', 'cmd_scan', 'cmd_setops', 'exec_strings', 'exec_lists', 'exec_sets', 'c16_pel', 'c12_parse']]
+                  ['shard_core', 'shard_strings', 'shard_lists', 'shard_sweeper', 'shard_sets', 'shard_hashes', 'shard_zsets', 'cmd_strings', 'cmd_lists', 'cmd_sets', 'cmd_hashes', 'c03_lists_arith', 'c04_zset_arith', 'c19_scan', 'c20_parser', 'c20_serializer', 'c10_bgsave', 'c11_aof', 'c09_rdb', 'c13_blocking', 'c07_transactions', 'shard_flush', 'c14_pubsub', 'srv_strings', 'srv_zsets', 'cmd_scan', 'cmd_setops', 'exec_strings', 'exec_lists', 'exec_sets', 'exec_route', 'c16_pel', 'c12_parse']]
                  # server-level units: their index/slice/overflow/unwrap/termination obligations only (their call preconditions are model permissions, not crashes)
                  + [{'group': g, 'kinds': ['safety', 'decreases']} for g in ['srv_exec', 'srv_frame', 'srv_conn', 'srv_auth', 'srv_push', 'srv_notify', 'srv_aof', 'srv_select', 'srv_wake', 'srv_pubsub']],
         'kani': STREAM_KANI[:1] + RDB_TOTAL_KANI,
@@ -134,7 +134,8 @@ PROPS = {
     },
     'C12': {
         'level': 'proof',
-        'verus': [_cg('c12_parse', True), _cg('exec_strings'), _cg('exec_lists'), _cg('exec_sets'), _cg('srv_strings'), _cg('cmd_strings'), _cg('cmd_lists'), _cg('cmd_sets'), _cg('cmd_hashes')],
+        'verus': [_cg('c12_parse', True), _cg('exec_route'), _cg('exec_strings'), _cg('exec_lists'), _cg('exec_sets'), _cg('srv_strings'), _cg('cmd_strings'), _cg('cmd_lists'), _cg('cmd_sets'), _cg('cmd_hashes')],
+        'tables': [{'name': 'script_parse_table', 'kind': 'script_parse'}],
         'explanation': 'parity clause only: the script path (CommandParser::parse_<cmd>, then the execute_string / execute_list arm) and the direct handler of the same command are proved against the SAME reference functions of (dataset, db, arg, num_arg, set_opts): the parser refuses exactly the argument shapes the direct handler refuses and yields the very argument values the direct handler uses; the arm has the effect and the reply of the reference function',
     },
     'C13': {
@@ -165,7 +166,7 @@ PROPS = {
     },
     'C18': {
         'level': 'proof',
-        'verus': [{'group': 'srv_select'}, {'group': 'srv_frame'}, {'group': 'srv_exec'}, {'group': 'c13_blocking', 'units': ['notify_served_arm']}, _cg('cmd_strings', True), _cg('cmd_lists'), _cg('cmd_sets'), _cg('cmd_hashes'), {'group': 'shard_flush', 'exclude_units': SHARD_VALUE_UNITS}],
+        'verus': [{'group': 'srv_select'}, {'group': 'srv_frame'}, {'group': 'srv_exec'}, {'group': 'c13_blocking', 'units': ['notify_served_arm']}, _cg('cmd_strings', True), _cg('cmd_lists'), _cg('cmd_sets'), _cg('cmd_hashes'), {'group': 'shard_flush', 'exclude_units': SHARD_VALUE_UNITS}, _cg('exec_route'), _cg('exec_strings'), _cg('exec_lists'), _cg('exec_sets')],
         'tables': [{'name': 'dispatch_table', 'kind': 'dispatch'}],
         'explanation': 'the db index along the direct and the EXEC path: SELECT (refusal / per-connection effect), process_frame dispatches with the issuing connection\'s selection, EXEC runs the queue on the connection\'s database, get_shard maps db to a shard of that database, the command handlers under contract read and write only (db, .) entries of the reference dataset, flush of a shard touches that shard only',
     },
